@@ -299,11 +299,14 @@ type acase struct {
 	hist, join, rcpt, open, expect bool
 	connModes                      []string
 	steps                          []step
+	// the muc client and the receipts handler are zero values (their optional
+	// callbacks HandleInvite, HandleUserPresence, Unhandled are not set)
+	bare bool
 }
 
 func (c *acase) String() string {
 	var sb strings.Builder
-	fmt.Fprintf(&sb, "app: history-query=%v muc-join=%v receipt-wait=%v ibb-open=%v ibb-expect-cancelled=%v ibb-consumers=%v\n", c.hist, c.join, c.rcpt, c.open, c.expect, c.connModes)
+	fmt.Fprintf(&sb, "app: history-query=%v muc-join=%v receipt-wait=%v ibb-open=%v ibb-expect-cancelled=%v ibb-consumers=%v zero-value-muc-client-and-receipts-handler=%v\n", c.hist, c.join, c.rcpt, c.open, c.expect, c.connModes, c.bare)
 	for i, s := range c.steps {
 		fmt.Fprintf(&sb, "step %d [%s %s %v]: %s\n", i, s.kind, s.name, s.muts, short(s.input, 3000))
 	}
@@ -368,6 +371,7 @@ func genACase(t *rapid.T) *acase {
 		rcpt:   rapid.IntRange(0, 2).Draw(t, "rcpt") > 0,
 		open:   rapid.IntRange(0, 2).Draw(t, "open") > 0,
 		expect: rapid.IntRange(0, 3).Draw(t, "expect") == 0,
+		bare:   rapid.IntRange(0, 3).Draw(t, "bare") == 0,
 	}
 	gs = &gstate{seq: map[string]int{}}
 	defer func() { gs = nil }()
@@ -515,7 +519,7 @@ type aresult struct {
 // runACase executes the case and reports violations through fail.
 func runACase(c *acase, fail func(format string, args ...any)) (res aresult, inconclusive bool) {
 	t0 := time.Now()
-	e, err := newEnv(c.connModes)
+	e, err := newEnv(c.connModes, c.bare)
 	if err != nil {
 		panic("harness: " + err.Error())
 	}
